@@ -1,5 +1,10 @@
 package main
 
+import (
+	"fmt"
+	"strings"
+)
+
 // C14 — array subscripts select by position, with last, ranges and lists.
 
 func c14Docs() []docEntry {
@@ -141,17 +146,63 @@ func c14NestedBounds() ([]Path, []docEntry) {
 }
 
 func checkC14(c Case) *Failure {
+	if c.Rule == "first-and-exists-evaluate-every-subscript" {
+		return c14Entry(c)
+	}
 	f, _ := compareQueryWithRef("C14", c, nil)
 	return f
 }
 
+// c14Entry: First and Exists see the same subscript list as Query: when Query fails, First fails in
+// the same way (every subscript is evaluated, also after the first selected element); when Query
+// succeeds, First is its first item and Exists says whether there is one.
+func c14Entry(c Case) *Failure {
+	p, err, pan := parseCached(c.Path)
+	if err != nil || pan != "" {
+		return &Failure{Sig: "C14/parse", Expected: "parses", Observed: fmt.Sprint(err, pan)}
+	}
+	doc := mustDoc(c.Doc, "float64")
+	q, f, e := implQuery(p, doc, runCfg{}), implFirst(p, doc, runCfg{}), implExists(p, doc, runCfg{})
+	mode := "lax"
+	if strings.HasPrefix(c.Path, "strict ") {
+		mode = "strict"
+	}
+	if f.Class != q.Class {
+		return &Failure{Sig: "C14/first-differs-from-query/" + mode, Expected: "First like Query: " + q.String(), Observed: f.String()}
+	}
+	if q.Class == "ok" {
+		if len(q.Items) == 0 && f.Items[0] != nil || len(q.Items) > 0 && canonNoID(f.Items[0]) != canonNoID(q.Items[0]) {
+			return &Failure{Sig: "C14/first-differs-from-query/item/" + mode, Expected: q.String(), Observed: f.String()}
+		}
+		if e.Class != "ok" || e.Bool != (len(q.Items) > 0) {
+			return &Failure{Sig: "C14/exists-differs-from-query/" + mode, Expected: fmt.Sprint(len(q.Items) > 0, " (Query: ", q.String(), ")"), Observed: e.String()}
+		}
+	} else if mode == "strict" && e.Class == "ok" {
+		return &Failure{Sig: "C14/exists-hides-subscript-error/strict", Expected: "an error like Query: " + q.String(), Observed: e.String()}
+	}
+	return nil
+}
+
 func runC14(r *Run) {
-	r.Rule("every array of length 0..4 over {null,1,\"a\",[2],{\"a\":3}} (781) plus non-array items and nested arrays x every single subscript, every range, every list of two (three in thorough) subscripts over bounds {-2..6,-0.5,0.5,1.9,last,last-1,last+1,last-5}, nested subscripts, and non-number / non-singleton / out-of-int32 subscripts x {lax,strict}; bounds that are paths `$[r] ? (@ op k)`, `$[r].a`, `$[r][*]`, `$[r][0]` with r a range or list visiting several elements (9 shapes x 3 operators x k in 0..2), as single subscript, range start, range end and list member, over every array of 2-3 numbers in 0..2 and every triple over 5 element kinds x {lax,strict} x {float64,json.Number} x {verbose,silent}; oracle: slice arithmetic written from the statement (reference model); non-trivial = items or an error expected")
+	r.Rule("every array of length 0..4 over {null,1,\"a\",[2],{\"a\":3}} (781) plus non-array items and nested arrays x every single subscript, every range, every list of two (three in thorough) subscripts over bounds {-2..6,-0.5,0.5,1.9,last,last-1,last+1,last-5}, nested subscripts, and non-number / non-singleton / out-of-int32 subscripts x {lax,strict}; bounds that are paths `$[r] ? (@ op k)`, `$[r].a`, `$[r][*]`, `$[r][0]` with r a range or list visiting several elements (9 shapes x 3 operators x k in 0..2), as single subscript, range start, range end and list member, over every array of 2-3 numbers in 0..2 and every triple over 5 element kinds x {lax,strict} x {float64,json.Number} x {verbose,silent}; oracle: slice arithmetic written from the statement (reference model); First and Exists on the same paths evaluate every subscript like Query; non-trivial = items or an error expected")
 	docs := c14Docs()
 	paths := c14Paths(r.Thorough())
 	r.Bound("documents", len(docs))
 	r.Bound("paths", len(paths))
 	refSweep(r, "subscripts-vs-slice-arithmetic", paths, docs, cfgsNumSilent())
+	// the subscript lists through First and Exists (one fifth of the documents)
+	r.ParFor(len(paths), func(i int) {
+		text := paths[i].String()
+		r.Note(i, text)
+		for di := i % 5; di < len(docs); di += 5 {
+			c := Case{Rule: "first-and-exists-evaluate-every-subscript", Path: text, Doc: docs[di].text, Num: "float64"}
+			r.evals.Add(1)
+			r.traces.Add(3)
+			if f := c14Entry(c); f != nil {
+				r.Fail(c, f)
+			}
+		}
+	})
 	lp := bothModes(lastAfterFailingSubscript())
 	r.Bound("last_after_failing_subscript_paths", len(lp))
 	refSweep(r, "last-after-failing-nested-subscript", lp, makeDocs([]any{mustDoc(`[[1,2],5,6,7]`, "float64"), mustDoc(`[[1,2,3],5]`, "float64"), mustDoc(`[[0],5,6]`, "float64"), mustDoc(`[[],1]`, "float64"), mustDoc(`[5,6]`, "float64")}), cfgsNumSilent())
